@@ -69,7 +69,18 @@ P = {
          "is never a success. Does not decide that non-cyclic graphs produce the right text.",
          TRUST + "Cut at parseValue (text produced by an evaluation is normalized into a fresh tree). Merge/normalize loops are outside C08's read entry points.",
          "§3 C08"),
- "C09": (False, "", "", "", "§3 C09"),
+ "C09": (True,
+         "map-iteration inventory and classification on SSA (E8, custom): loop-carried values, early exits and body effects (E1 mod summaries) per site",
+         "Decides the structural necessary condition behind 'results never depend on map iteration order': every place where the runtime's "
+         "enumeration order can enter NewFrom/Merge/Unpack (SSA Range over a map, reflect MapKeys/MapRange, a map handed to library code) is "
+         "enumerated from the call graph and each is sorted before use, or accumulate-then-sort, or has iterations that are independent of each "
+         "other: no value carried between iterations, no early exit, and every effect of the body lands on fresh objects, the per-call options, "
+         "per-key values or the destination through accessors keyed by the loop key (callee effects from the E1 mod summaries).",
+         "Not decided: order-independence of user callbacks (Unpacker, Validator, resolvers); that evaluating a reference while handling one key "
+         "does not observe a sibling key written earlier in the same sorted pass (deterministic either way once the order is fixed); the per-call "
+         "value cache is accepted under C08 R08e; GetFields / fieldSet.Names / diff.String return names in runtime order and are outside the "
+         "property's entry points (listed as information).",
+         "§3 C09"),
  "C10": (True,
          "interprocedural ownership / mod-and-flow analysis on SSA (E1, custom; summaries to fixpoint over the VTA call graph)",
          "Decides the aliasing statement behind 'source and destination stay independent': for Merge/NewFrom/MustNewFrom the source parameter is "
